@@ -42,8 +42,8 @@ var prefixes = map[sk.Kind][][]string{
 	sk.GER: {{}, {"insert"}, {"insert", "insertinfo"}, {"insert", "remove", "insert"}},
 }
 var faulted = map[sk.Kind][]string{
-	sk.Bridge: {"bridge", "bridge2", "bridge+claim", "claim", "tokenmap", "migrate", "rmlegacy", "empty"},
-	sk.L1Info: {"info", "info2", "v2", "verify", "verify+info", "init", "empty"},
+	sk.Bridge: {"bridge", "bridge2", "bridge+claim", "claim", "tokenmap", "migrate", "rmlegacy", "empty", "bridge3"},
+	sk.L1Info: {"info", "info2", "v2", "verify", "verify+info", "init", "empty", "info3"},
 	sk.GER:    {"insert", "insertinfo", "remove", "empty"},
 }
 var tails = map[sk.Kind][][]string{
@@ -61,13 +61,23 @@ func units(tier string) []mc.Unit {
 					if tier == "quick" && ti > 0 {
 						continue
 					}
+					// three leaves in one block: the first leaf at an even and at an odd index (quick), every carry position (thorough)
+					if (blk == "bridge3" || blk == "info3") && tier == "quick" && pi > 2 {
+						continue
+					}
 					name := fmt.Sprintf("%s:[%s]+%s+[%s]", store, strings.Join(pre, ","), blk, strings.Join(tail, ","))
 					us = append(us, mc.Unit{Name: name, Params: params{Store: store, Prefix: pre, Block: blk, Tail: tail, Slices: 1,
 						TailRestart: tier == "thorough" || store == sk.GER}})
 					// double faults: every (first, second) position pair, sharded by first position
 					twoLeaf := blk == "bridge2" || blk == "info2" || blk == "v2"
-					double := ti == 0 && (store == sk.GER || (twoLeaf && (pi <= 1 || (tier == "thorough" && pi <= 5))) ||
+					double := ti == 0 && (store == sk.GER || (twoLeaf && (pi == 1 || (tier == "thorough" && pi <= 5))) ||
 						(tier == "thorough" && pi <= 1))
+					if blk == "bridge3" || blk == "info3" {
+						double = false
+					}
+					if tier == "quick" && store == sk.L1Info {
+						double = false // quick: double faults on the bridge and GER stores only
+					}
 					if !double {
 						continue
 					}
@@ -266,7 +276,7 @@ func main() {
 	mc.Main(mc.Spec{
 		ID: "C07", Level: "fault_enumeration",
 		Units:              units,
-		Batch:              func(string) int { return 6 },
+		Batch:              func(string) int { return 2 },
 		MaxEvalsPerProcess: 900,
 		Run:                run,
 		Setup:              func(string) { kit.Quiet() },
